@@ -135,7 +135,8 @@ def Target.resolve (w : World) : Target → Nat
 /-- the script refers to an order / trade that does not exist (yet) -/
 def Target.missing (w : World) : Target → Bool
   | .byId oid => decide (w.orders.length ≤ oid)
-  | .lastOfTrade tid => (w.trade? tid).isNone || (w.trade! tid).orders.isEmpty
+  | .lastOfTrade tid => (w.trade? tid).isNone || (w.trade! tid).orders.isEmpty ||
+      decide (w.orders.length ≤ ((w.trade! tid).orders.getLast?).getD w.orders.length)
 
 inductive Action
   | create (o : Order) (newTrade : Option Trade)       -- trade.create_order (and the Trade when new)
